@@ -53,6 +53,11 @@ Proof. unfold g_as_always. rewrite (g_as_always_ansi_eq cf raw d s). reflexivity
 Lemma g_as_never_eq cf raw d : g_as_never cf raw = as_of (auto_mode CNever d) sb_new raw.
 Proof. reflexivity. Qed.
 
+(* AutoStream::wincon off Windows (`#[cfg(not(all(windows, feature = "wincon")))] { Err(raw) }`): no legacy-console stream
+   is ever built, the raw stream is handed back unchanged *)
+Lemma g_as_wincon_eq cf raw : g_as_wincon cf raw = inr raw.
+Proof. reflexivity. Qed.
+
 Lemma g_as_choice_eq cf raw : g_as_choice cf raw = ac_decided cf.
 Proof. reflexivity. Qed.
 
